@@ -174,6 +174,20 @@ def valid_interval(obj):
     return None
 
 
+def outside_chunk(obj):
+    """a position query documents that it refuses to leave the associated sequence chunk: its result never claims bounds
+    outside the chunk it carries (identifier queries are documented to keep whole members and clamp the sequence instead)"""
+    try:
+        par = obj.chunk_relative_location.parent if not obj.chunk_relative_location.is_empty else None
+        if par is not None and par.sequence is not None and par.has_ancestor_of_type("sequence_chunk") and par.sequence.parent is not None:
+            chunk_loc = par.sequence.location_on_parent
+            if obj.start < chunk_loc.start or obj.end > chunk_loc.end:
+                return "bounds %s-%s outside the sequence chunk %s-%s" % (obj.start, obj.end, chunk_loc.start, chunk_loc.end)
+    except DOCUMENTED:
+        return None
+    return None
+
+
 def expect_refusal(ctx, label, thunk, validator=None):
     """corrupted input: must raise a documented exception, or (if accepted) the result must pass the validator"""
     out = attempt(ctx, label, thunk)
@@ -584,6 +598,8 @@ def check_methods(spec, ctx):
                  ("query_empty_range", lambda: coll.query_by_position(coll.start, coll.start + 1, completely_within=True)),
                  ("query_coding_only", lambda: coll.query_by_position(coding_only=True)),
                  ("query_expand", lambda: coll.query_by_position(coll.start, coll.start + 1, completely_within=False, expand_location_to_children=True)),
+                 ("query_expand_end", lambda: coll.query_by_position(max(coll.start, coll.end - 1), coll.end, completely_within=False, expand_location_to_children=True)),
+                 ("query_expand_all", lambda: coll.query_by_position(completely_within=False, expand_location_to_children=True)),
                  ("query_by_guids_none", lambda: coll.query_by_guids([])), ("query_by_feature_identifiers_none", lambda: coll.query_by_feature_identifiers("nothing")),
                  ("query_by_interval_guids_none", lambda: coll.query_by_interval_guids([])),
                  ("get_children_by_type", lambda: [coll.get_children_by_type(t_) for t_ in ("feature", "transcript", "variant", "FEATURE")])]
@@ -592,7 +608,7 @@ def check_methods(spec, ctx):
         for nm, fn in calls:
             out = attempt(ctx, name + "." + nm, fn)
             if out.kind == "value" and isinstance(out.value, AnnotationCollection):
-                r = valid_interval(out.value)
+                r = valid_interval(out.value) or (outside_chunk(out.value) if nm.startswith("query_") and "guid" not in nm and "identifier" not in nm else None)
                 if r:
                     ctx.fail("ill_formed_result:%s.%s" % (name, nm), r)
                 if out.value.is_empty:
